@@ -203,7 +203,7 @@ Proof. destruct v; auto. cbn [val_ok]. intros M H. specialize (M table). lia. Qe
 
 Definition hist_ok_on (last : string -> Z) (h : rh) : Prop :=
   (forall r, In r (hrows h) -> 1 <= h_id r <= last (h_table r)) /\
-  (forall name v, lookupS name (n2t h) = None -> lookupZ name (tc h) = Some v -> v <= last name) /\
+  (forall name v, lookupZ name (tc h) = Some v -> v <= last name) /\
   (forall k v, lookupZ k (tc h) = Some v -> 0 <= v) /\
   (forall k v, lookupZ k (lc h) = Some v -> 0 <= v) /\
   (forall k v, In (k, v) (nc h) -> 0 <= v).
@@ -222,7 +222,7 @@ Proof.
   - intros c n v Hc Hin. eapply val_ok_mono; [exact M|]. eapply V1; eassumption.
   - intros f n v Hc Hin. eapply val_ok_mono; [exact M|]. eapply V2; eassumption.
   - intros r Hr'. specialize (H1 r Hr'). specialize (M (h_table r)). lia.
-  - intros name v Hn Hv. specialize (H2 name v Hn Hv). specialize (M name). lia.
+  - intros name v Hv. specialize (H2 name v Hv). specialize (M name). lia.
   - exact H3.
   - exact H4.
   - exact H5.
@@ -432,7 +432,7 @@ Proof.
     destruct (lookupZ to (tc (hist (rnd s)))) as [m|] eqn:Em; [|discriminate].
     destruct (m =? 0); [discriminate|]. injection E as <- <- <- <-.
     cbn [resolve_draw] in E0. injection E0 as <- <-.
-    specialize (H2 to m En Em).
+    specialize (H2 to m Em).
     pose proof (get0_nonneg to (lc (hist (rnd s))) H4) as Hg.
     destruct (m <? get0 to (lc (hist (rnd s))) + 1); lia.
 Qed.
@@ -449,31 +449,25 @@ Proof.
 Qed.
 
 Lemma save_row_ok last h t nick id :
-  hist_ok_on last h -> 1 <= id <= last t ->
-  (match nick with Some n => nick_maps_to h n t = true | None => True end) ->
-  hist_ok_on last (save_row h t nick id).
+  hist_ok_on last h -> 1 <= id <= last t -> hist_ok_on last (save_row h t nick id).
 Proof.
-  intros (H1 & H2 & H3 & H4 & H5) Hid Hk. unfold hist_ok_on.
+  intros (H1 & H2 & H3 & H4 & H5) Hid. unfold hist_ok_on.
   destruct nick as [n|]; unfold save_row; cbn [hrows tc lc nc n2t].
-  - unfold nick_maps_to in Hk.
-    destruct (lookupS n (n2t h)) as [t0|] eqn:En; [|discriminate].
-    pose proof (get0_nonneg_In n (nc h) H5) as Hg.
+  - pose proof (get0_nonneg_In n (nc h) H5) as Hg.
     splits.
     + intros r Hr. apply in_app_or in Hr. destruct Hr as [Hr|[<-|[]]]; [apply (H1 r Hr)|cbn; exact Hid].
-    + intros name v Hn. rewrite !lookupZ_assignZ.
-      destruct (String.eqb name n) eqn:E1; [apply String.eqb_eq in E1; subst name; congruence|].
+    + intros name v. rewrite lookupZ_assignZ.
       destruct (String.eqb name t) eqn:E2; [apply String.eqb_eq in E2; subst name; intros Hv; injection Hv as <-; lia|].
-      apply H2. exact Hn.
-    + intros k v. rewrite !lookupZ_assignZ. destruct (String.eqb k n); [intros Hv; injection Hv as <-; lia|].
-      destruct (String.eqb k t); [intros Hv; injection Hv as <-; lia|]. apply H3.
+      apply H2.
+    + intros k v. rewrite lookupZ_assignZ. destruct (String.eqb k t); [intros Hv; injection Hv as <-; lia|]. apply H3.
     + exact H4.
     + intros k v Hin. apply In_assignZ in Hin. destruct Hin as [Heq|Hin]; [injection Heq as _ ->; lia|].
       apply (H5 k v Hin).
   - splits.
     + intros r Hr. apply in_app_or in Hr. destruct Hr as [Hr|[<-|[]]]; [apply (H1 r Hr)|cbn; exact Hid].
-    + intros name v Hn. rewrite lookupZ_assignZ.
+    + intros name v. rewrite lookupZ_assignZ.
       destruct (String.eqb name t) eqn:E2; [apply String.eqb_eq in E2; subst name; intros Hv; injection Hv as <-; lia|].
-      apply H2. exact Hn.
+      apply H2.
     + intros k v. rewrite lookupZ_assignZ. destruct (String.eqb k t); [intros Hv; injection Hv as <-; lia|]. apply H3.
     + exact H4.
     + exact H5.
@@ -483,17 +477,12 @@ Lemma remember_history_V e s t nick id s' :
   remember_history e s t nick id = Ok s' -> V s -> 1 <= id <= last_id s t -> V s'.
 Proof.
   unfold remember_history. intros H HVs Hid.
-  destruct (existsb (String.eqb t) (hist_tables e)).
-  2:{ destruct nick as [n|]; [destruct (existsb (String.eqb n) (hist_tables e)); [discriminate|]|];
-      injection H as <-; exact HVs. }
-  destruct (match nick with Some n => negb (nick_maps_to (hist (rnd s)) n t) | None => false end) eqn:Ek;
-    [discriminate|]. injection H as <-.
+  destruct (existsb (String.eqb t) (hist_tables e)); injection H as <-; [|exact HVs].
   destruct HVs as (Va & Vb & Hh).
   split; [exact Va|]. split; [exact Vb|].
   unfold hist_ok. cbn [rnd upd_rnd hist].
   change (last_id (upd_rnd s (mkR (save_row (hist (rnd s)) t nick id) (draws (rnd s))))) with (last_id s).
-  apply save_row_ok; [exact Hh|exact Hid|].
-  destruct nick as [n|]; [|exact I]. apply negb_false_iff in Ek. exact Ek.
+  apply save_row_ok; [exact Hh|exact Hid].
 Qed.
 
 Lemma reset_hist_V s : V s -> V (reset_hist s).
@@ -895,7 +884,7 @@ Proof.
   - intros T. unfold last_id. cbn. lia.
 Qed.
 
-Lemma hist_ok_on_empty last names : hist_ok_on last (mkRh [] [] [] names []).
+Lemma hist_ok_on_empty last names : hist_ok_on last (mkRh [] [] [] [] names []).
 Proof. unfold hist_ok_on. cbn. splits; intros; try contradiction; discriminate. Qed.
 
 Lemma lookupZ_lookup k l : lookupZ k l = lookup k l.
@@ -908,7 +897,7 @@ Lemma rh_init_ok (last : string -> Z) ids0 names :
 Proof.
   intros Hl Hnn. unfold hist_ok_on, rh_init. cbn [hrows tc lc nc n2t]. splits.
   - intros r [].
-  - intros name v _ Hv. rewrite lookupZ_lookup in Hv. rewrite Hl, Hv. lia.
+  - intros name v Hv. rewrite lookupZ_lookup in Hv. rewrite Hl, Hv. lia.
   - intros k v Hv. rewrite lookupZ_lookup in Hv. specialize (Hnn k). rewrite Hl, Hv in Hnn. exact Hnn.
   - intros k v Hv. rewrite lookupZ_lookup in Hv. specialize (Hnn k). rewrite Hl, Hv in Hnn. exact Hnn.
   - intros k v [].
@@ -993,15 +982,12 @@ Proof. unfold save_row. destruct nick; reflexivity. Qed.
 
 Lemma fold_save_rows_ok last (rows : list (string * option string * Z)) : forall h,
   hist_ok_on last h ->
-  (forall r, In r rows -> 1 <= snd r <= last (fst (fst r)) /\
-     match snd (fst r) with Some n => nick_maps_to h n (fst (fst r)) = true | None => True end) ->
+  (forall r, In r rows -> 1 <= snd r <= last (fst (fst r))) ->
   hist_ok_on last (fold_left (fun h r => save_row h (fst (fst r)) (snd (fst r)) (snd r)) rows h).
 Proof.
   induction rows as [|r rest IH]; intros h Hh Hr; cbn [fold_left]; [exact Hh|].
-  destruct (Hr r (or_introl eq_refl)) as [Hb Hk].
-  apply IH; [apply save_row_ok; assumption|].
-  intros r' Hin. destruct (Hr r' (or_intror Hin)) as [Hb' Hk']. split; [exact Hb'|].
-  destruct (snd (fst r')) as [n|]; [|exact I]. unfold nick_maps_to in *. rewrite save_row_n2t. exact Hk'.
+  apply IH; [apply save_row_ok; [exact Hh|apply Hr; left; reflexivity]|].
+  intros r' Hin. apply Hr. right. exact Hin.
 Qed.
 
 Lemma fold_assignZ_nonneg (l : list (string * Z)) : forall acc,
@@ -1046,17 +1032,12 @@ Proof.
       injection Et as <-. intros r [<-|Hin]; [cbn; rewrite Eq; apply Hcells; eapply nth_error_In; exact Hc|].
       eapply IH; [reflexivity|exact Hin]. }
   set (rows := filter _ (nick_rows ++ filter _ table_rows)) in H.
-  destruct (negb (forallb _ rows)) eqn:Ef; [discriminate|]. injection H as <-.
-  apply negb_false_iff in Ef. rewrite forallb_forall in Ef.
-  assert (Hrows : forall r, In r rows -> 1 <= snd r <= last (fst (fst r)) /\
-            match snd (fst r) with Some n => nick_maps_to h0 n (fst (fst r)) = true | None => True end).
-  { intros r Hin. split.
-    - unfold rows in Hin. apply filter_In in Hin. destruct Hin as [Hin _]. apply in_app_or in Hin.
-      destruct Hin as [Hin|Hin]; [apply Hn; exact Hin|]. apply filter_In in Hin. apply Ht. apply Hin.
-    - specialize (Ef r Hin). destruct (snd (fst r)); [exact Ef|exact I]. }
+  injection H as <-.
+  assert (Hrows : forall r, In r rows -> 1 <= snd r <= last (fst (fst r))).
+  { intros r Hin. unfold rows in Hin. apply filter_In in Hin. destruct Hin as [Hin _]. apply in_app_or in Hin.
+    destruct Hin as [Hin|Hin]; [apply Hn; exact Hin|]. apply filter_In in Hin. apply Ht. apply Hin. }
   pose proof (fold_save_rows_ok last rows h0 Hh Hrows) as (H1 & H2 & H3 & H4 & H5).
   unfold hist_ok_on. cbn [hrows tc lc nc n2t]. splits; auto.
-  apply fold_assignZ_nonneg; [exact H4|exact H5].
 Qed.
 
 Lemma load_V e s c s0 : V s -> Bd s -> save s = Ok c -> load e c = Ok s0 -> V s0.
